@@ -608,6 +608,7 @@ type Lemma struct {
 type StoreHook struct {
 	Field string // heap key, e.g. server.Target.state
 	Ghost string
+	At    string // "obj" or "val": which reference indexes the ghost
 	Expr  *SExpr // over obj, val, old
 	Text  string
 }
@@ -633,6 +634,7 @@ type Specs struct {
 	TypeInv      map[string][]Clause
 	Frames       map[string][]*SExpr
 	StableNonNil map[string]bool // heap keys whose non-nil-ness, once established, is never undone
+	GlobalInv    []Clause        // invariants over shared state that hold at every instant (assumed at entry / after interference, proved at every return)
 }
 
 func newSpecs() *Specs {
@@ -644,7 +646,7 @@ var itemKeywords = map[string]bool{
 	"func": true, "assume": true, "requires": true, "ensures": true, "assigns": true, "emits": true,
 	"loop": true, "on_panic": true, "spec": true, "ghost": true, "lemma": true, "axiom": true,
 	"on_store": true, "guarded_by": true, "lock_rank": true, "immutable": true, "attr": true,
-	"stable": true, "frame": true, "uses": true, "params": true, "results": true, "lock_invariant": true, "type_invariant": true, "end": true,
+	"global_invariant": true, "stable": true, "frame": true, "uses": true, "params": true, "results": true, "lock_invariant": true, "type_invariant": true, "end": true,
 }
 
 type rawItem struct {
@@ -1030,11 +1032,12 @@ func (sp *Specs) parseItem(path string, it rawItem, cur **FuncContract) error {
 		eq := strings.Index(body, "=")
 		lhs := strings.TrimSpace(body[:eq])
 		gname := lhs[:strings.Index(lhs, "(")]
+		at := strings.TrimSpace(lhs[strings.Index(lhs, "(")+1 : strings.Index(lhs, ")")])
 		e, err := parseSpecExpr(body[eq+1:])
 		if err != nil {
 			return err
 		}
-		sp.Hooks = append(sp.Hooks, &StoreHook{Field: field, Ghost: gname, Expr: e, Text: body})
+		sp.Hooks = append(sp.Hooks, &StoreHook{Field: field, Ghost: gname, At: at, Expr: e, Text: body})
 	case "guarded_by":
 		*cur = nil
 		// guarded_by a, b, c : Lock [rw]
@@ -1057,6 +1060,13 @@ func (sp *Specs) parseItem(path string, it rawItem, cur **FuncContract) error {
 		for _, f := range strings.Split(rest, ",") {
 			sp.Immutable = append(sp.Immutable, strings.TrimSpace(f))
 		}
+	case "global_invariant":
+		*cur = nil
+		cl, err := mkClause(kw, rest)
+		if err != nil {
+			return err
+		}
+		sp.GlobalInv = append(sp.GlobalInv, cl)
 	case "lock_invariant", "type_invariant":
 		*cur = nil
 		i := strings.Index(rest, ":")
